@@ -234,7 +234,6 @@ void Executor::op_file(const Op& op, TaskCtx& t) {
     uint32_t savemask = t.bug_mask; t.bug_mask = 0;
     op_begin(t);
     s.setInt(P::i("iterlimit"), 2000); o->pm.i[P::i("iterlimit")] = 2000;
-    if (s.getInt(P::i("scaler")) == 5 && !opt_.sacrificial) { s.setInt(P::i("scaler"), 2); o->pm.i[P::i("scaler")] = 2; }   // known finding: least-squares scaler on LPs with empty vectors
     int st = s.optimize(nullptr);
     count(std::string("post_status:") + sut::status_name(st));
     s.setInt(P::i("iterlimit"), -1); o->pm.i[P::i("iterlimit")] = -1;
